@@ -45,23 +45,13 @@ Let V := [v0; v1; v2; v3].
 (* ---- windowed correlation, 1 x 4 image, window (1, 3) ----------------------------------------------- *)
 Let nb14 := box_nb [1; 4]%nat [1; 3]%nat.
 
-Lemma gen_lcc14_ok (eps : K) :
-  gen_lcc14 eps X Y = lcc_loss RNone nb14 eps X Y None /\
-  gen_lcc14_mean_mask eps X Y W = lcc_loss RMean nb14 eps X Y (Some W).
-Proof. repeat split; gen_tac. Qed.
-
-Lemma gen_wlcc14_all_ok (eps : K) :
-  gen_wlcc14_all eps X Y W U V = wlcc_loss RNone nb14 eps X Y (Some W) (Some U) (Some V).
+Lemma gen_wlcc14_mask_ok (eps : K) :
+  gen_wlcc14_mask eps X Y W = wlcc_loss RMean nb14 eps X Y (Some W) None None.
 Proof. gen_tac. Qed.
 
-Lemma gen_wlcc14_s_ok (eps : K) :
-  gen_wlcc14_s eps X Y U = wlcc_loss RNone nb14 eps X Y None (Some U) None.
+Lemma gen_wlcc14_st_ok (eps : K) :
+  gen_wlcc14_st eps X Y U V = wlcc_loss RMean nb14 eps X Y None (Some U) (Some V).
 Proof. gen_tac. Qed.
+
 End V4.
-
-(* 2 x 3 image, window 3 x 3: genuinely two-dimensional windows with zero padding *)
-Lemma gen_lcc23_ok (eps x0 x1 x2 x3 x4 x5 y0 y1 y2 y3 y4 y5 : K) :
-  gen_lcc23 eps [x0; x1; x2; x3; x4; x5] [y0; y1; y2; y3; y4; y5]
-  = lcc_none (box_nb [2; 3] [3; 3])%nat eps [x0; x1; x2; x3; x4; x5] [y0; y1; y2; y3; y4; y5].
-Proof. gen_tac. Qed.
 End G.
